@@ -223,6 +223,7 @@ class BaseFileLock(abc.ABC):
             return
 
         self._decrement_lock_counter()
+        levels = 1  # Levels of the thread lock to release
 
         if self._lock_counter == 0 or force:
             lid = id(self)
@@ -234,11 +235,14 @@ class BaseFileLock(abc.ABC):
             except:  # noqa
                 _logger.exception("Failed to release lock %s on %s", lid, fn)
             else:
-                self._lock_counter = 0
                 _logger.info('Lock %s released on %s', lid, fn)
+            # When forced, every nested level is given up at once
+            levels += self._lock_counter
+            self._lock_counter = 0
 
         try:
-            self._thread_lock.release()
+            for _ in range(levels):
+                self._thread_lock.release()
         except RuntimeError:  # not reentrant and already unlocked
             pass
 
